@@ -255,6 +255,8 @@ type reader struct {
 	step   int
 	errAt  int
 	closed bool
+
+	lastZero bool
 }
 
 func (r *reader) Read(p []byte) (int, error) {
@@ -274,8 +276,15 @@ func (r *reader) Read(p []byte) (int, error) {
 	if len(r.frag) > 0 {
 		want := r.frag[r.step%len(r.frag)]
 		r.step++
-		if want == 0 {
+		if want == 0 && !r.lastZero {
+			// A zero-length read is legal for an io.Reader, but never twice in a row
+			// (a reader that stalls forever is outside any contract).
+			r.lastZero = true
 			return 0, nil
+		}
+		r.lastZero = false
+		if want == 0 {
+			want = -1
 		}
 		if want > 0 && want < n {
 			n = want
@@ -309,4 +318,11 @@ func (r *reader) Close() error {
 	r.closed = true
 	r.d.closed++
 	return nil
+}
+
+// NewReader returns a stand-alone reader with the daemon's fragmentation and fault behaviour.
+func NewReader(data []byte, frag []int, errAt int) (io.ReadCloser, *Daemon) {
+	d := &Daemon{}
+	d.opened++
+	return &reader{d: d, data: data, frag: frag, errAt: errAt}, d
 }
